@@ -130,7 +130,8 @@ func init() {
 		}
 	}
 	c08 := []string{"srv-req-read-close", "srv-req-close", "srv-req-close-smallpipe", "srv-two-seq", "srv-pipelined", "srv-panics", "srv-half-then-close",
-		"srv-4bytes-then-close", "srv-stray-response", "srv-hookfail-req", "srv-hookfail-2conn", "srv-hookok-seq", "srv-garbage", "srv-undecodable", "srv-toobig", "srv-req-then-garbage", "srv-slow-close", "srv-halfclose", "srv-3pipelined-close"}
+		"srv-4bytes-then-close", "srv-stray-response", "srv-hookfail-req", "srv-hookok-seq", "srv-garbage", "srv-undecodable", "srv-toobig", "srv-req-then-garbage", "srv-slow-close", "srv-halfclose", "srv-3pipelined-close"}
+	c08long := []string{"srv-refused-requests-a", "srv-refused-requests-b", "srv-hookfail-2conn"} // long scripts: delay bounding
 	c08multi := []string{"srv-2conn-good-bad", "srv-2conn-good-abrupt", "srv-3conn", "srv-4pipelined-read1-close"}
 	plans["C08"] = Plan{
 		Post:  mergeSeqEvidence("C08"),
@@ -138,8 +139,8 @@ func init() {
 		Rule: "all schedules (thread interleavings, select choices, timer firings) of the real kmipserver code under scripted client connections, " +
 			"within the bound given per shard; distinct = distinct (scenario, outcome) classes observed. " + boundingNote,
 		Assumptions: []string{timeAssumption, netAssumption, fifoAssumption, "a half-close is treated like a disconnect (no response required after it)"},
-		Quick:       cat(pb(100, B{{0, 0}, {1, 0}}, c08...), db(100, B{{2, 0}}, c08multi...), db(100, B{{0, 0}, {1, 0}}, "srv-size-history")),
-		Thorough:    cat(pb(1500, B{{1, 0}, {2, 0}}, c08...), db(1500, B{{3, 0}, {4, 0}}, c08...), db(1500, B{{2, 0}, {3, 0}}, c08multi...), pb(1500, B{{0, 0}}, c08multi...), db(1500, B{{2, 0}}, "srv-size-history"), pb(1500, B{{0, 0}}, "srv-size-history")),
+		Quick:       cat(pb(100, B{{0, 0}, {1, 0}}, c08...), db(100, B{{2, 0}}, c08multi...), db(100, B{{0, 0}, {1, 0}}, "srv-size-history"), db(100, B{{1, 0}, {2, 0}}, c08long...), pb(100, B{{0, 0}}, c08long...)),
+		Thorough:    cat(pb(1500, B{{1, 0}, {2, 0}}, c08...), db(1500, B{{3, 0}, {4, 0}}, c08...), db(1500, B{{2, 0}, {3, 0}}, c08multi...), pb(1500, B{{0, 0}}, c08multi...), db(1500, B{{2, 0}}, "srv-size-history"), pb(1500, B{{0, 0}}, "srv-size-history"), db(1500, B{{3, 0}}, c08long...), pb(1500, B{{0, 0}, {1, 0}}, c08long...)),
 	}
 	plans["C08cold"] = Plan{
 		Property: "C08",
@@ -174,7 +175,7 @@ func init() {
 		Thorough: cat(db(1500, B{{2, 1}, {3, 1}}, c11...), db(1500, B{{0, 2}, {1, 2}}, c11...), pb(1500, B{{0, 1}}, c11...)),
 	}
 
-	c16one := []string{"shut-pipelined", "shut-idle", "shut-half", "shut-fast", "shut-slow", "shut-smallpipe", "shut-hookfail", "shut-late"}
+	c16one := []string{"shut-stubborn", "shut-pipelined", "shut-idle", "shut-half", "shut-fast", "shut-slow", "shut-smallpipe", "shut-hookfail", "shut-late"}
 	c16two := []string{"shut-2conn", "shut-2conn-idle-fast", "shut-twice-slow", "shut-twice-fast", "shut-closeerr-slow", "shut-closeerr-fast"}
 	plans["C16"] = Plan{
 		Level: "model_checking",
@@ -218,6 +219,17 @@ func init() {
 		Pre:         codecPre,
 		Quick:       cat(pb(100, B{{1, 0}, {2, 0}}, c02conc...), split(8, pb(100, B{{1, 0}, {2, 0}}, c02heavy...))),
 		Thorough:    cat(pb(1500, B{{2, 0}, {3, 0}, {4, 0}}, c02conc...), split(16, pb(1500, B{{2, 0}, {3, 0}}, c02heavy...))),
+	}
+	plans["C05"] = Plan{
+		Post:  mergeSeqEvidence("C05"),
+		Level: "exploration",
+		Rule: "all interleavings (bounded preemptions, at the plan-cache operations of the instrumented codec, caches cold) of two threads encoding messages of DIFFERENT protocol versions at once, in the three encodings and on reused encoders: " +
+			"each result must be what the same call gives alone (the version of one message must not gate the fields of another). " + boundingNote,
+		Assumptions: []string{"scheduling points are the sync.Map operations of the plan caches (the only synchronisation in the codec)"},
+		Keep:        hasPrefix("fail:codec-result", "panic:"),
+		Pre:         codecPre,
+		Quick:       pb(100, B{{1, 0}, {2, 0}}, "codec:enc-req10-ttlv||enc-req14-ttlv", "codec:enc-resp14-xml||enc-resp12-json", "codec:enc-create11-xml||enc-create14-ttlv", "codec:reuse-10-then-14||reuse-14-then-10"),
+		Thorough:    pb(1500, B{{2, 0}, {3, 0}}, "codec:enc-req10-ttlv||enc-req14-ttlv", "codec:enc-resp14-xml||enc-resp12-json", "codec:enc-create11-xml||enc-create14-ttlv", "codec:reuse-10-then-14||reuse-14-then-10"),
 	}
 	c20big := []string{"codec:enc-req10-ttlv+dec-resp13-xml||enc-resp14-xml+dec-req12-ttlv", "codec:enc-req10-ttlv||enc-req14-ttlv||dec-req12-ttlv"}
 	plans["C20"] = Plan{
